@@ -57,7 +57,8 @@ func (c *C18) Run(x *engine.Ctx) *engine.Violation {
 	}
 	var written []uint64
 	type snap struct {
-		root  big.Int
+		root  big.Int  // the value Root() returned (shares words with whatever the tree keeps)
+		rootC *big.Int // deep copy taken at that moment
 		path  []big.Int
 		pathC []*big.Int
 	}
@@ -163,9 +164,12 @@ func (c *C18) Run(x *engine.Ctx) *engine.Violation {
 					return engine.Violatef("C18/earlier-path-mutated", "depth %d step %d: a path returned earlier changed at level %d", depth, step, i)
 				}
 			}
+			if keep.root.Cmp(keep.rootC) != 0 {
+				return engine.Violatef("C18/earlier-root-value-mutated", "depth %d step %d: a value returned earlier by Root() changed after later updates", depth, step)
+			}
 		}
 		if keep == nil || t.Chance(1, 4) {
-			keep = &snap{root: got, path: path, pathC: pp}
+			keep = &snap{root: got, rootC: new(big.Int).Set(&got), path: path, pathC: pp}
 		}
 		nontrivial := cls != "rand" || len(written) > 0 && depth <= 6
 		if nontrivial {
